@@ -167,8 +167,16 @@ func craftedTables(c *ctx, n int) [][]byte {
 				c.rng.Read(h)
 				p = append(p, h...)
 			case 3:
-				p = append(p, putVar(big(c))...)
-				p = append(p, []byte("target")[:c.rng.Intn(7)]...)
+				tl := big(c)
+				if c.rng.Intn(3) == 0 {
+					tl = uint64(c.rng.Intn(3)) // 0: a symbolic ref to the empty name, which the Go API reads as a deletion
+				}
+				p = append(p, putVar(tl)...)
+				if tl < 3 {
+					p = append(p, []byte("tg")[:tl]...)
+				} else {
+					p = append(p, []byte("target")[:c.rng.Intn(7)]...)
+				}
 			}
 		}
 		switch c.rng.Intn(5) {
@@ -312,12 +320,38 @@ func runHostile(c *ctx) error {
 		for m := 0; m < nmut; m++ {
 			b := append([]byte{}, data...)
 			kind := ""
-			mk := c.rng.Intn(13)
+			mk := c.rng.Intn(14)
 			if mk == 11 {
 				mk = 10
 			}
 			mqs := qs
 			switch mk {
+			case 13:
+				kind = "restart-count-boundary"
+				// the restart count in the trailer of a real, uncompressed block (found with the reader
+				// itself; mostly not the first one) set to a boundary value: none, one, one off, all ones
+				if len(starts) > 0 {
+					bo := int(starts[c.rng.Intn(len(starts))])
+					if len(starts) > 1 && c.rng.Intn(4) > 0 {
+						bo = int(starts[1+c.rng.Intn(len(starts)-1)])
+					}
+					p := bo
+					if bo == 0 {
+						p = hs
+					}
+					if p+4 < len(b)-fs && b[p] != 'g' {
+						cur := int(b[p+1])<<16 | int(b[p+2])<<8 | int(b[p+3])
+						if e := bo + cur; cur >= 6 && e <= len(b)-fs {
+							n := int(b[e-2])<<8 | int(b[e-1])
+							vals := []int{0, 0, 0, 1, n - 1, n + 1, 2 * n, 0xffff, (cur - 4) / 3, (cur-4)/3 + 1}
+							v := vals[c.rng.Intn(len(vals))]
+							if v < 0 {
+								v = 0
+							}
+							b[e-2], b[e-1] = byte(v>>8), byte(v)
+						}
+					}
+				}
 			case 12:
 				kind = "obj-id-len"
 				// the 5-bit abbreviated-id length in the footer's object word takes every boundary value
